@@ -200,6 +200,8 @@ pub struct AppSpec {
     pub exc: Vec<(u8, u16, u8)>,
     pub write_exc: [Option<u8>; 4],
     pub dense: bool,
+    #[serde(default)]
+    pub transform: bool,
 }
 
 impl AppSpec {
@@ -207,6 +209,7 @@ impl AppSpec {
         let mut app = App {
             dense: self.dense,
             write_exc: self.write_exc,
+            transform: self.transform,
             ..Default::default()
         };
         for (t, a, v) in &self.points {
@@ -222,7 +225,7 @@ impl AppSpec {
         app
     }
     pub fn dense() -> Self {
-        AppSpec { points: vec![], exc: vec![], write_exc: [None; 4], dense: true }
+        AppSpec { points: vec![], exc: vec![], write_exc: [None; 4], dense: true, transform: false }
     }
 }
 
